@@ -253,6 +253,10 @@ def export_cases(tier):
         seen.add(key)
         out.append({"kind": "gas", "type": list(t)})
     out.append({"kind": "krome"})
+    # a rate given as the sum of two fits (databases list such reactions twice: same reactants, products, window and
+    # type, other coefficients) next to an unrelated reaction: every term must still be there after the re-rendering
+    out.append({"kind": "multi", "fmt": "kida"})
+    out.append({"kind": "multi", "fmt": "umist"})
     for model in c11.MODELS:
         for path in ("leeds", "uclchem", "api"):
             procs = set()
@@ -289,6 +293,20 @@ def run_export(case):
                 kw["required_species"] = ["CO", "H2", "H"]
             with quiet():
                 net = Network(filelist=str(f), fileformats=fmt, **kw)
+        elif case["kind"] == "multi":
+            fmt = case["fmt"]
+            label = f"{fmt}:two-term-fit"
+            code = {"kida": 3, "umist": "NN"}[fmt]
+            lines = [
+                c05.encode(fmt, code, None, ["C+", "H2"], ["CH+", "H"], 1.0e-10, 0.0, 4640.0, 1),
+                c05.encode(fmt, code, None, ["C+", "H2"], ["CH+", "H"], 7.4e-10, -0.5, 4537.0, 2),
+                c05.encode(fmt, code, None, ["H", "CH+"], ["C+", "H2"], 7.5e-10, 0.0, 0.0, 3),
+                c05.encode(fmt, code, None, ["C+", "H2"], ["CH+", "H"], 1.0e-10, 0.0, 4640.0, 4),
+            ]
+            f = tmp / f"in.{fmt}"
+            f.write_text("\n".join(lines) + "\n")
+            with quiet():
+                net = Network(filelist=str(f), fileformats=fmt)
         elif case["kind"] == "krome":
             label = "krome:rate"
             f = tmp / "in.krome"
@@ -313,7 +331,7 @@ def run_export(case):
                     f = tmp / f"in.{path}"
                     f.write_text(line + "\n")
                     net = Network(filelist=str(f), fileformats=path, **kw)
-        if len(net.reaction_list) != 1:
+        if len(net.reaction_list) != (4 if case["kind"] == "multi" else 1):
             raise HarnessError(f"{label}: probe network has {len(net.reaction_list)} reactions")
         # direct rendering = what export itself renders
         with quiet():
@@ -354,9 +372,9 @@ def run_export(case):
         if r1.get("compile_error"):
             first = next((ln for ln in r1["compile_error"].splitlines() if "error" in ln), "")
             return label, "rerender-does-not-compile", []
-        k0 = [row[0] for row in r0["k"]]
-        k1 = [row[0] for row in r1["k"]]
-        if not all(same(a, b, 1e-12) for a, b in zip(k0, k1)):
+        k0 = [x for row in r0["k"] for x in row]
+        k1 = [x for row in r1["k"] for x in row]
+        if len(k0) != len(k1) or not all(same(a, b, 1e-12) for a, b in zip(k0, k1)):
             return label, "differs", [(f"C18:export-rerender:{label}", f"{label}: exported project evaluates k = {k0}, the same project re-rendered from its own files evaluates k = {k1} (parameters: direct {f0}, re-rendered {f1})", case)]
         return label, "equal", []
     finally:
